@@ -588,6 +588,8 @@ func runHarness(ld *Loaded, hs *HarnessSpec, tier string, known map[string]bool,
 		}()
 		if aborted {
 			hr.Aborted++
+			// alternatives of the decisions taken before the abort point stay scheduled
+			queue = append(queue, in.pending...)
 		} else {
 			for _, ob := range buf {
 				if old, ok := seenOb[ob.Key]; ok && ob.Key != "" {
@@ -750,7 +752,7 @@ func (rp *Replayer) Replay(hs *HarnessSpec, ob *Obligation, all []*HarnessSpec, 
 	switch {
 	case strings.Contains(so, "VSYM-ASSUME-FAILED"):
 		ro.Why = "replay does not satisfy the harness assumptions in float64/native arithmetic"
-	case strings.HasPrefix(ob.Label, "fact:"):
+	case strings.HasPrefix(ob.Label, "fact:") || strings.Contains(ob.Label, "hdf5-call-under-lock") || strings.Contains(ob.Label, "hdf5-write-under-write-lock") || strings.Contains(ob.Label, "lock-discipline"):
 		// a fact about the executed SSA itself (e.g. a store to a package-level variable during
 		// Run) that a native run cannot observe: the satisfiable path condition is the evidence
 		ro.Reproduced = !strings.Contains(so, "VSYM-ASSUME-FAILED")
